@@ -144,7 +144,7 @@ def suite_glue(ctx):
     for t in range(nw):
         case = list(CASES)[(t + ctx_seed(ctx)) % 4]
         mapping = MAPS[(t*5 + ctx_seed(ctx)) % 6]
-        noise = ['scalar', 'array', 'std', 'relative-only'][t % 4]
+        noise = ['scalar', 'array', 'std', 'relative-only', 'unit'][t % 5]
         shape = [(8, 8, 8), (16, 8, 8), (8, 8, 8), (8, 8, 16)][t % 4]
         edge = t % 3 == 0
         w = World(emg3d, rng, case, mapping, shape=shape,
@@ -295,7 +295,7 @@ def suite_fd(ctx):
         case = list(CASES)[(t + 1 + ctx_seed(ctx)) % 4]
         mapping = MAPS[(t*5 + 2 + ctx_seed(ctx)) % 6]
         w = World(emg3d, rng, case, mapping, shape=(8, 8, 8),
-                  relative=bool(t % 2), noise=['scalar', 'array'][t % 2],
+                  relative=bool(t % 2), noise=['scalar', 'array', 'unit'][t % 3],
                   edge_rec=(t % 3 == 1))
         sim = w.sim()
         with warnings.catch_warnings():
